@@ -15,7 +15,7 @@
    todo_set = find_difference(tip, onto)[0] = ancestry(tip) \ ancestry(onto). *)
 From Coq Require Import NArith List Arith Bool.
 From BV Require Import Lib.Bytes Lib.Dag Lib.DagTopo Theory.DagFacts Theory.DagTopoFacts
-  Model.Rebase Theory.Rebase Model.RebaseCodec Theory.RebaseCodec
+  Model.Rebase Theory.Rebase Theory.RebaseReplay Model.RebaseCodec Theory.RebaseCodec
   Lib.PyDict Model.RebaseTranspose Theory.RebaseTranspose.
 Import ListNotations.
 Close Scope N_scope.
@@ -144,12 +144,51 @@ Theorem C51_rebase_todo_dependencies_first :
 Proof. exact todo_deps_first. Qed.
 Print Assumptions C51_rebase_todo_dependencies_first.
 
-(* rebase() does NOT replay in plan order but in graph.iter_topo_order(replace_map.keys()),
-   a topological order of the OLD graph restricted to the keys.  With
-   skip_full_merged that is NOT enough (candidate finding C51-dropped-merge-replay-order):
-   a dropped merge is not a key, so its child and the entry the child now depends
-   on are unrelated there; [5; 3] is such an order for the plan {3 -> 103, 5 -> 105 on 103} *)
-Theorem C51_any_topological_order_dependencies_first_refuted :
+(* rebase() (since 7ede022) replays in topo_sort(dependencies) with
+   dependencies[old] = old parents + the entries whose new id is a new parent of old.
+   [l] is ANY list that topo_sort may return for that map ([dep_sortedb]: no
+   duplicates, no key followed by one of its dependencies).  Then, for ANY replace
+   map with pairwise different keys and new ids (simple or transpose plan, loaded
+   from a plan file, ...): the entry that a new parent refers to comes strictly
+   before the entry that uses it *)
+Theorem C51_replay_order_dependencies_first :
+  forall g (m : rmap) l old new ps p o' ps' i j,
+  NoDup (map fst m) -> NoDup (map (fun e => fst (snd e)) m) ->
+  dep_sortedb (plan_deps g m) l = true ->
+  In (old, (new, ps)) m -> In p ps -> In (o', (p, ps')) m -> o' <> old ->
+  index_of o' l = Some i -> index_of old l = Some j -> i < j.
+Proof. exact replay_deps_first. Qed.
+Print Assumptions C51_replay_order_dependencies_first.
+
+(* ... and the order of the old graph is kept as well *)
+Theorem C51_replay_order_parents_first :
+  forall g (m : rmap) l old q i j,
+  wf_dag g = true -> dep_sortedb (plan_deps g m) l = true ->
+  rm_get m old <> None -> In q (parents g old) ->
+  index_of q l = Some i -> index_of old l = Some j -> i < j.
+Proof. exact replay_parents_first. Qed.
+Print Assumptions C51_replay_order_parents_first.
+
+(* such an order exists for every plan of generate_simple_plan (with and without
+   skip_full_merged): the plan's own order is one, so the dependency relation has
+   no cycle and topo_sort cannot fail.  generate_revid injective and fresh (its ids
+   are neither onto nor a parent id of the graph). *)
+Theorem C51_replay_order_exists :
+  forall g gen todo_set order start stop onto skip m,
+  wf_dag g = true ->
+  (forall r r' ps ps', gen r ps = gen r' ps' -> r = r') ->
+  (forall r ps x, (x = onto \/ exists c, In x (parents g c)) -> gen r ps <> x) ->
+  topo_sortedb g order = true ->
+  simple_plan g gen todo_set order start stop onto skip = Ok m ->
+  dep_sortedb (plan_deps g m) (map fst m) = true.
+Proof. exact plan_order_dep_sorted. Qed.
+Print Assumptions C51_replay_order_exists.
+
+(* about the OLD behaviour (before 7ede022 rebase() replayed in
+   graph.iter_topo_order(replace_map.keys()), a topological order of the old graph
+   restricted to the keys): that was not enough with skip_full_merged -- [5; 3] is
+   such an order for the plan {3 -> 103, 5 -> 105 on 103} *)
+Theorem C51_old_any_topological_order_refuted :
   exists g todo_set order tip onto m l old new ps p o' ps' i j,
     wf_dag g = true /\ topo_order_of g todo_set order = true /\
     todo_set = find_unique_ancestors g tip [onto] /\
@@ -158,22 +197,13 @@ Theorem C51_any_topological_order_dependencies_first_refuted :
     In (old, (new, ps)) m /\ In p ps /\ In (o', (p, ps')) m /\
     index_of o' l = Some i /\ index_of old l = Some j /\ j < i.
 Proof. exact any_topo_refuted. Qed.
-Print Assumptions C51_any_topological_order_dependencies_first_refuted.
+Print Assumptions C51_old_any_topological_order_refuted.
 
-(* guard: skip_full_merged = false.  In ANY topological order l of the old
-   graph the entry that a new parent refers to comes strictly before its user *)
-Theorem C51_any_topological_order_dependencies_first_guarded :
-  forall g gen, wf_dag g = true ->
-  forall todo_set order start stop onto m m1 old new ps m2,
-  topo_sortedb g order = true ->
-  simple_plan g gen todo_set order start stop onto false = Ok m ->
-  m = m1 ++ (old, (new, ps)) :: m2 ->
-  forall p, In p ps ->
-    p = onto \/ (In p (parents g old) /\ ~ In p (map fst m)) \/
-    exists o' ps', In (o', (p, ps')) m1 /\
-      forall l i j, topo_sortedb g l = true -> index_of o' l = Some i -> index_of old l = Some j -> i < j.
-Proof. exact deps_first_any_topo_noskip. Qed.
-Print Assumptions C51_any_topological_order_dependencies_first_guarded.
+(* the old order [5; 3] is not admissible any more *)
+Example C51_old_order_rejected :
+  dep_sortedb (plan_deps g_witness [(3, (103, [2])); (5, (105, [103]))]) [5; 3] = false /\
+  dep_sortedb (plan_deps g_witness [(3, (103, [2])); (5, (105, [103]))]) [3; 5] = true.
+Proof. split; reflexivity. Qed.
 
 (* an injective generate_revid gives pairwise different new ids (and the old
    ids are pairwise different too) *)
